@@ -455,6 +455,28 @@ func c11RoleManagerFaults(c *Ctx) {
 			c.Count("rm-failure-during-load-empty-definition")
 		}
 	}
+	// a role manager whose AddLink / DeleteLink fails inside a single management call: whatever is
+	// attached to the enforcer (watchers of every kind, auto-notify on or off), the error must
+	// reach the caller (what is rolled back is F17's subject, not this one)
+	for _, wk := range []string{"none", "plain", "ex", "upd"} {
+		for _, an := range []bool{true, false} {
+			m := newMach(c11Conf, true, an, wk, nil)
+			frm := &c11FailingRM{RoleManager: defaultrolemanager.NewRoleManagerImpl(10), failAt: 1}
+			m.E.SetRoleManager(frm)
+			_, err := m.E.AddGroupingPolicy("alice", "admin")
+			if err == nil {
+				c.Direct(fmt.Sprintf("c11.rm.single.%s.%v", wk, an), "the role manager's AddLink failed inside AddGroupingPolicy but the call returned no error (watcher kind "+wk+")", "AddGroupingPolicy(alice, admin)")
+			}
+			frm.failAt, frm.calls = 0, 0
+			_, _ = m.E.AddGroupingPolicy("bob", "admin")
+			frm.failAt, frm.calls = 1, 0
+			_, err = m.E.AddGroupingPolicies([][]string{{"carol", "admin"}, {"dave", "admin"}})
+			if err == nil {
+				c.Direct(fmt.Sprintf("c11.rm.batch.%s.%v", wk, an), "the role manager's AddLink failed inside AddGroupingPolicies but the call returned no error (watcher kind "+wk+")", "AddGroupingPolicies")
+			}
+			c.Count("rm-failure-in-single-call-with-watcher")
+		}
+	}
 	// F17 (known): a failing AddLink inside AddGroupingPolicy leaves the rule listed without link
 	mm, _ := model.NewModelFromString(c11Conf.Text)
 	e, _ := casbin.NewEnforcer(mm)
